@@ -131,8 +131,10 @@ var statusProto = map[keyset.KeyStatus]tinkpb.KeyStatusType{
 	keyset.Enabled: tinkpb.KeyStatusType_ENABLED, keyset.Disabled: tinkpb.KeyStatusType_DISABLED, keyset.Destroyed: tinkpb.KeyStatusType_DESTROYED,
 }
 
+// isSecretMaterial: everything that is not positively public or remote. The material-type enum is
+// open (proto3): a value this version of the library does not know is key material of unknown type.
 func isSecretMaterial(m tinkpb.KeyData_KeyMaterialType) bool {
-	return m == tinkpb.KeyData_SYMMETRIC || m == tinkpb.KeyData_ASYMMETRIC_PRIVATE || m == tinkpb.KeyData_UNKNOWN_KEYMATERIAL
+	return m != tinkpb.KeyData_ASYMMETRIC_PUBLIC && m != tinkpb.KeyData_REMOTE
 }
 
 // ---------------------------------------------------------------------------------------------
@@ -143,7 +145,7 @@ var (
 	symmetricClasses = []keys.Class{keys.AEAD, keys.DAEAD, keys.MAC, keys.PRF, keys.Streaming, keys.JWTMAC, keys.Deriver}
 	// kinds of keyset entries
 	nonSecretKinds = []string{"real-public", "legacy-public", "legacy-remote"}
-	secretKinds    = []string{"real-symmetric", "real-private", "legacy-symmetric", "legacy-private", "legacy-unknown", "mislabelled"}
+	secretKinds    = []string{"real-symmetric", "real-private", "legacy-symmetric", "legacy-private", "legacy-unknown", "legacy-unknown-enum-value", "mislabelled"}
 	allKinds       = append(append([]string{}, nonSecretKinds...), secretKinds...)
 	legacyPrefixes = []tinkpb.OutputPrefixType{tinkpb.OutputPrefixType_TINK, tinkpb.OutputPrefixType_LEGACY, tinkpb.OutputPrefixType_RAW, tinkpb.OutputPrefixType_CRUNCHY}
 	protoStatuses  = []tinkpb.KeyStatusType{tinkpb.KeyStatusType_ENABLED, tinkpb.KeyStatusType_ENABLED, tinkpb.KeyStatusType_DISABLED, tinkpb.KeyStatusType_DESTROYED}
@@ -232,6 +234,11 @@ func drawGuardEntry(rt *rapid.T, label, kind string) guardEntry {
 	case "legacy-unknown":
 		// UNKNOWN_KEYMATERIAL is the enum's zero value: this is also what a writer that forgot the field produces
 		kd, prefix, e.desc = drawLegacy(rt, label, []string{legacykm.UnknownMatURL, legacykm.RemoteURL, legacykm.VerifierURL}, 32, tinkpb.KeyData_UNKNOWN_KEYMATERIAL)
+	case "legacy-unknown-enum-value":
+		// a material type this version of the enum does not define (a keyset written by a newer or a
+		// foreign implementation): key material of unknown type
+		m := tinkpb.KeyData_KeyMaterialType(rapid.SampledFrom([]int32{5, 6, 99, -1}).Draw(rt, label+"_material_value"))
+		kd, prefix, e.desc = drawLegacy(rt, label, []string{legacykm.UnknownMatURL, legacykm.RemoteURL, legacykm.VerifierURL}, 32, m)
 	default:
 		panic("unknown kind " + kind)
 	}
@@ -915,6 +922,51 @@ func TestEncryptedKeyset(t *testing.T) {
 			rt.Fatalf("%s\nkeyset.ReadWithNoSecrets ACCEPTED the encrypted form", desc())
 		}
 
+		// the SAME handle written a second time with the same key-encryption AEAD object and OTHER
+		// associated data (a second tenant, a second location): the second written form is bound to
+		// the second associated data, not to the first. (Added after seeded change C13f: the handle
+		// cached its last encrypted form per key-encryption AEAD.)
+		{
+			ad2 := mut.Out
+			var buf2 bytes.Buffer
+			mem2 := &keyset.MemReaderWriter{}
+			var w2 keyset.Writer = mem2
+			switch format {
+			case "binary":
+				w2 = keyset.NewBinaryWriter(&buf2)
+			case "json":
+				w2 = keyset.NewJSONWriter(&buf2)
+			}
+			var err error
+			if ctxAPI {
+				err = c.h.WriteWithContext(context.Background(), w2, tk.CtxAEAD(kek.right), ad2)
+			} else {
+				err = c.h.WriteWithAssociatedData(w2, kek.right, ad2)
+			}
+			if err != nil {
+				rt.Fatalf("%s\nsecond write of the same handle with associated data %x: %v", desc(), ad2, err)
+			}
+			reader2 := func() keyset.Reader {
+				switch format {
+				case "binary":
+					return keyset.NewBinaryReader(bytes.NewReader(buf2.Bytes()))
+				case "json":
+					return keyset.NewJSONReader(bytes.NewReader(buf2.Bytes()))
+				}
+				return &keyset.MemReaderWriter{EncryptedKeyset: proto.Clone(mem2.EncryptedKeyset).(*tinkpb.EncryptedKeyset)}
+			}
+			back2, err := keyset.ReadWithAssociatedData(reader2(), kek.right, ad2)
+			if err != nil {
+				rt.Fatalf("%s\nthe form written second, with associated data %x, cannot be read with that associated data: %v", desc(), ad2, err)
+			}
+			if err := sameAsOriginal(back2); err != nil {
+				rt.Fatalf("%s\nhandle read back from the second written form: %v", desc(), err)
+			}
+			if _, err := keyset.ReadWithAssociatedData(reader2(), kek.right, ad); err == nil {
+				rt.Fatalf("%s\nthe form written second, with associated data %x, can be read with the associated data %x of the FIRST write", desc(), ad2, ad)
+			}
+			evid.Add("second_writes_with_other_ad", 1)
+		}
 		evid.Add("windows_searched", int64(sc.size()))
 		evid.Case(fmt.Sprintf("encrypted/n=%d/kinds=%d/%s/ad=%v/kek=%s", len(c.members), c.materialKinds(), format, len(ad) > 0, kek.info.Type), true,
 			c.fingerprint().S(format).B(ad).S(kek.info.Desc).S(kek.how).B(mut.Out).Sum(), func() any {
